@@ -21,7 +21,15 @@
    "region = original" while the harness sweeps every concrete byte position.
 
    Get(r) follows the code's steps: look up / open (absent, dir), read `size` bytes at
-   `offset` (short read), re-hash and compare.  *)
+   `offset` (short read), re-hash and compare.
+
+   A block RETURNED by a successful Get is a value the caller keeps: `handed` is the set of all
+   blocks handed out so far (reference + "its bytes hash to the CID of that reference").  No
+   action -- neither a fault of the backing store nor a later Get of the same or of another
+   reference -- changes a handed-out block (frame condition `handed' = handed` of every fault,
+   Get only ADDS the block it returns), so the property "returns a block only if its bytes hash
+   to the requested CID" holds for every block handed out, at every later state
+   (`RetainedGenuine`), not only at the moment of the return.  *)
 EXTENDS Naturals, Sequences, FiniteSets, TLC, Json
 
 CONSTANTS Configs,    \* set of [kind, P, N, S, R, rd]
@@ -30,8 +38,9 @@ CONSTANTS Configs,    \* set of [kind, P, N, S, R, rd]
 
 VARIABLES cfg,   \* the configuration (constant during a behaviour)
           st, base, cont,
-          last   \* result of the last Get since the last fault, or None
-vars == <<cfg, st, base, cont, last>>
+          last,  \* result of the last Get since the last fault, or None
+          handed \* blocks returned (res = ok) so far, as the callers hold them NOW: [r, genuine]
+vars == <<cfg, st, base, cont, last, handed>>
 
 None == [r |-> 0]
 
@@ -82,12 +91,21 @@ GetResults(r) ==
          ELSE IF Intact(r) THEN {Ok}
          ELSE Corrupt({"changed"})                               \* short body or hash mismatch
 
+\* the block a successful Get(r) hands to its caller: it carries the bytes read in THIS state
+BlockOf(r)  == [r |-> r, genuine |-> Intact(r)]
+\* blocks a caller may obtain by Get(r) in this state (generator: every reference is read after every fault)
+Returned(r) == IF Ok \in GetResults(r) THEN {BlockOf(r)} ELSE {}
+
 Get(r) == /\ r \in Refs
-          /\ \E o \in GetResults(r) : last' = [r |-> r, out |-> o, intact |-> Intact(r)]
+          /\ \E o \in GetResults(r) :
+                /\ last' = [r |-> r, out |-> o, intact |-> Intact(r)]
+                \* earlier blocks are untouched by this read, whatever reference it reads
+                /\ handed' = handed \cup (IF o.res = "ok" THEN {BlockOf(r)} ELSE {})
           /\ UNCHANGED <<cfg, st, base, cont>>
 
 (* ---- faults (the environment) ------------------------------------------------------ *)
-Fault == last' = None /\ UNCHANGED cfg
+\* a fault changes the backing store only: blocks already handed out keep their bytes
+Fault == last' = None /\ UNCHANGED <<cfg, handed>>
 
 Flip(i, m)  == /\ st = "present" /\ i \in 1..Len(cont) /\ m \in Masks
                /\ cont' = [cont EXCEPT ![i] = Xor(@, m)]
@@ -109,6 +127,7 @@ Swap        == /\ st' = "present" /\ base' = "other" /\ cont' = Zeros(Total(cfg)
 
 Init == /\ cfg \in Configs
         /\ st = "present" /\ base = "own" /\ cont = Zeros(Total(cfg)) /\ last = None
+        /\ handed = {}
 
 FaultNext == \/ \E i \in 1..MaxLen, m \in Masks : Flip(i, m)
              \/ \E n \in 0..MaxLen : Truncate(n)
@@ -121,8 +140,12 @@ Spec == Init /\ [][Next]_vars
 TypeOK == /\ st \in {"present", "absent", "dir"} /\ base \in {"own", "other"}
           /\ cont \in Seq(0..3) /\ Len(cont) <= MaxLen
           /\ (st # "present" => cont = <<>>)
+          /\ handed \subseteq [r : Refs, genuine : BOOLEAN]
 \* Get(c) = ok(x) => Hash(x) = c
 OnlyGenuine == last # None => (last.out.res = "ok" => last.intact)
+\* every block ever returned still hashes to the CID it was requested by, after any number of
+\* later faults and Gets (of the same or of other references)
+RetainedGenuine == \A b \in handed : b.genuine
 \* held[c] # orig[c] => Get(c) is an error; for the filestore a corrupt-reference error whose
 \* status says "changed" when the file content changed / shrank and "notfound" when it vanished
 CorruptReported ==
